@@ -51,6 +51,24 @@ def gen(rng, tier):
         if rng.random() < 0.15:
             case['lagtype'] = rng.choice(['int8', 'int8', 'int16', 'int32', 'int64', 'uint8', 'uint8', 'uint16', 'uint64'])      # NumPy integer scalars as lag time
         yield case
+    for _ in range(8 if tier == 'quick' else 150):
+        # trajectories in a NARROW integer type and an ABSENT start / final label that is congruent to an existing one
+        # modulo 2^8 / 2^16 (or a float next to one): still absent, still rejected
+        dt = rng.choice(['uint8', 'int8', 'int16', 'uint16'])
+        bits = 8 if dt.endswith('8') else 16
+        lo = 0 if dt.startswith('u') else -2 ** (bits - 1)
+        labs = sorted(rng.sample(range(lo, lo + 2 ** bits), 3) if rng.random() < 0.5 else rng.sample(range(0, 40), 3))
+        if labs == [1, 2, 3]:
+            labs = [0, 2, 3]
+        t = G.traj(rng, labs, rng.randint(60, 150), sticky=0.6) + labs
+        ghost = rng.choice(labs) + rng.choice([1, -1, 2]) * 2 ** bits
+        S, F = [labs[0]], [labs[2]]
+        if rng.random() < 0.5:
+            S = rng.choice([[ghost], [labs[0], ghost]])
+        else:
+            F = rng.choice([[ghost], [labs[2], ghost]])
+        yield {'trajs': [t], 'lag': 1, 'S': S, 'F': F, 'steps': 200, 'seed': rng.randrange(2**31), 'npseed': rng.randrange(2**31),
+               'alpha': 'narrow-' + dt + '+ghost', 'mal': 'absent', 'dtype': dt}
     for case in gen_long(rng, tier):
         yield case
     for case in gen_wide(rng, tier):
@@ -153,7 +171,7 @@ def impl(case):
     from props import c07
     nojit = bool(numba.config.DISABLE_JIT)
     seed, record = c07._rec
-    trajs = [np.array(t) for t in G.expand(case)]
+    trajs = [np.array(t, dtype=case.get('dtype')) for t in G.expand(case)]
     st = mh.StateTraj(trajs)
     states = [int(s) for s in st.states]
     out = {'states': states}
